@@ -162,6 +162,90 @@ class Host:
         return Rot(self.fam["family"], self.fam["revision"], [kp(k, self.ks, "pub") for k in rot_names]).calculate_hash()
 
 
+class RefHost:
+    """A host made of the device twin's own tools instead of SPSDK - used for the canary: its trace must be accepted whatever the
+    tree under test does (and it shows on every run that harness, twin and R-spec agree with each other)."""
+
+    class _V:
+        def __init__(self, ver):
+            self.major, self.minor = ver
+
+    class _Flags:
+        def __init__(self, n, used):
+            self.cnt_root_cert, self.used_root_cert = n, used
+
+    class _Meta:
+        pass
+
+    class DC:
+        def __init__(self, version, socc, uuid, rot_meta, dck_pub, cc_socu, cc_vu, cc_beacon, rot_pub, signature_provider=None, signature=None):
+            self.version, self.socc, self.uuid, self.rot_meta, self.dck_pub = version, socc, uuid, rot_meta, dck_pub
+            self.cc_socu, self.cc_vu, self.cc_beacon, self.rot_pub, self.signature_provider = cc_socu, cc_vu, cc_beacon, rot_pub, signature_provider
+            self.data = None
+
+        def sign(self):
+            m = self.rot_meta
+            self.data = D.forge_dc(m.ele, [self.version.major, self.version.minor], self.socc, self.uuid, self.cc_socu, self.cc_vu, self.cc_beacon, m.pubs, m.used,
+                                   self.dck_pub, self.signature_provider)
+
+        def export(self):
+            return self.data
+
+        def calculate_hash(self):
+            return hashlib_ref([self.version.major, self.version.minor], self.rot_meta.pubs, self.rot_meta.ele)
+
+        def __eq__(self, o):
+            return (self.socc, self.uuid, self.cc_socu, self.cc_vu, self.cc_beacon) == (o.socc, o.uuid, o.cc_socu, o.cc_vu, o.cc_beacon)
+
+    class DAC:
+        def __init__(self, ver, uuid, challenge):
+            self.version, self.uuid, self.challenge = RefHost._V(ver), uuid, challenge
+
+        def validate_against_dc(self, family, dc):
+            return None
+
+    class DAR:
+        def __init__(self, family, debug_credential, auth_beacon, dac, sign_provider, revision="latest"):
+            self.dc, self.beacon, self.dac, self.sign_provider = debug_credential, auth_beacon, dac, sign_provider
+
+        def export(self):
+            priv, binds, scheme = self.sign_provider
+            return D.forge_dar(self.dc.export(), self.beacon, self.dac.uuid, self.dac.challenge, binds, priv, scheme)
+
+    def __init__(self, sc):
+        self.sc, self.fam, self.ver = sc, sc["fam"], tuple(sc["case"]["ver"])
+        self.ks = KEYSET[self.ver]
+        self.ele = sc["case"]["cls"] == "ele1"
+
+    def create_dc(self, cred):
+        meta = RefHost._Meta()
+        meta.pubs, meta.used, meta.ele = [D.load_pub(kp(k, self.ks, "pub")) for k in cred["rot"]], cred["used"], self.ele
+        if not (self.ver[0] == 1 and not self.ele):
+            meta.flags = RefHost._Flags(len(meta.pubs), cred["used"])
+        else:
+            meta.rot_items = meta.pubs
+        dc = RefHost.DC(RefHost._V(self.ver), self.fam["socc"], cred["uuid"], meta, D.load_pub(kp(cred["dck"], self.ks, "pub")), cred["socu"], cred["vu"], cred["beacon"],
+                        meta.pubs[cred["used"]], D.load_priv(kp(cred["rot"][cred["used"]], self.ks, "pem")))
+        dc.sign()
+        self.made = dc
+        return dc, dc.export()
+
+    def parse_dc(self, data):
+        return self.made
+
+    def parse_dac(self, data):
+        hl = len(data) - 72
+        return RefHost.DAC(self.ver, data[8:24], data[40 + hl:72 + hl])
+
+    def respond(self, dc_obj, dc_bytes, dac, beacon, dck_name, how):
+        pub = D.load_pub(kp(dck_name, self.ks, "pub"))
+        self.dar_obj = RefHost.DAR(self.fam["family"], dc_obj, beacon, dac, (D.load_priv(kp(dck_name, self.ks, "pem")), self.ver[0] == 2, D.scheme_for(pub, self.ele)))
+        return self.dar_obj.export()
+
+    def tools_hash(self, rot_names):
+        return hashlib_ref(list(self.ver), [D.load_pub(kp(k, self.ks, "pub")) for k in rot_names], self.ele)
+
+
 def spsdk_fields(dc):
     """Field values of an SPSDK credential object, in the shape the spec compares."""
     out = {"ver": [dc.version.major, dc.version.minor], "socc": limbs(dc.socc), "uuid": list(dc.uuid), "socu": limbs(dc.cc_socu), "vu": limbs(dc.cc_vu),
@@ -321,10 +405,10 @@ def _run_scenario_ele2(sc):
         return done()
     for part, tbl, base in (("dar", [f for f in m["fields"] if f[0] not in ("dc", "pad")], 0), ("dc", c["fields"], m["cert_at"])):
         for name, off, ln in tbl:
-            pos = base + off + r.randrange(ln)
-            t = bytearray(dar)
-            t[pos] ^= 1 << r.randrange(8)
-            ev.append({"e": "Tamper", "part": part, "field": name, "at": pos, "verdict": dev.verdict(bytes(t), ch1)[0]})
+            for bit in tamper_bits(r, ln, sc.get("flips", 1)):
+                t = bytearray(dar)
+                t[base + off + bit // 8] ^= 1 << (bit % 8)
+                ev.append({"e": "Tamper", "part": part, "field": name, "at": base + off + bit // 8, "bit": bit % 8, "verdict": dev.verdict(bytes(t), ch1)[0]})
     return done()
 
 
@@ -335,7 +419,7 @@ def _run_scenario(sc):
     case, fam = sc["case"], sc["fam"]
     ver, n, used, ele = list(case["ver"]), case["nkeys"], case["used"], case["cls"] == "ele1"
     ks = KEYSET[tuple(ver)]
-    host = Host(sc)
+    host = RefHost(sc) if sc.get("refhost") else Host(sc)
     binds = ver[0] == 2
     ev = [{"e": "Case", "cls": case["cls"], "ver": ver, "nkeys": n, "used": used, "wild": case["wild"], "sha256": fam["sha256"], "skip": []}]
     wit = {"blobs": {}}
@@ -543,13 +627,22 @@ def _run_scenario(sc):
     # ---- tamper: one flipped bit per field of the honest response
     for part, tbl, base in (("dc", dc["fields"], 0), ("dar", [f for f in w["fields"] if f[0] != "dc"], 0)):
         for name, off, ln in tbl:
-            if ln == 0:
-                continue
-            pos = off + r.randrange(ln)
-            t = bytearray(dar)
-            t[pos] ^= 1 << r.randrange(8)
-            ev.append({"e": "Tamper", "part": part, "field": strip_idx(name), "at": pos, "verdict": deliver(bytes(t), "d1", "ch1")})
+            for bit in tamper_bits(r, ln, sc.get("flips", 1)):
+                t = bytearray(dar)
+                t[off + bit // 8] ^= 1 << (bit % 8)
+                ev.append({"e": "Tamper", "part": part, "field": strip_idx(name), "at": off + bit // 8, "bit": bit % 8, "verdict": deliver(bytes(t), "d1", "ch1")})
     return done()
+
+
+def tamper_bits(r, nbytes, flips):
+    """Bit positions to flip in a field. flips = 1: one random bit; otherwise every bit of a field of up to four bytes (SoC class,
+    constraints, beacons, flags ...) and eight random bits of a longer one."""
+    nbits = 8 * nbytes
+    if flips <= 1:
+        return [r.randrange(nbits)] if nbits else []
+    if nbytes <= 4:
+        return list(range(nbits))
+    return sorted(r.sample(range(nbits), k=8))
 
 
 def table_ok(dc, pubs, ele):
@@ -626,9 +719,11 @@ def plan(cases, attempts, fams, tier, r):
         core = core_attempts(binds)
         sc.update(id=i, attempts=core + [a for a in extra if a not in core], tools=tools_apply(sc["fam"], sc["case"]["cls"], sc["case"]["ver"]),
                   via=r.choice(["yaml-family", "yaml-family", "yaml-revision", "yaml-socc"]), explicit_version=r.random() < 0.5,
-                  dar_via=r.choice(["create", "config"]), dc_for_dar=r.choice(["created", "parsed"]))
+                  dar_via=r.choice(["create", "config"]), dc_for_dar=r.choice(["created", "parsed"]), flips=1 if tier == "quick" else 32)
         if sc["via"] == "yaml-socc" and not socc_is_safe(sc["fam"], fams):
             sc["via"] = "yaml-family"
+        if sc["fam"]["fclass"].endswith("-oldrev"):
+            sc["dar_via"] = "config"  # DebugAuthenticateResponse.create() takes no revision and resolves the family to its latest one
     return scs
 
 
@@ -737,9 +832,27 @@ def continuation(t, matched, rnd):
     return dict(t, id=t["id"] % 100000 + 100000 * (rnd + 1), ev=ev)
 
 
-def canary(good):
-    """One known-good trace must be accepted; the same trace with one corrupted field must be rejected - for several clauses."""
+def canary(fams):
+    """One known-good trace must be accepted; the same trace with one corrupted field must be rejected - for several clauses.
+    The known-good trace comes from a host made of the twin's own tools (RefHost), so it does not depend on the tree under test."""
+    fam = next(f for f in fams if f["fclass"] == "cb21" and f["latest"])
+    case = {"kind": "case", "cls": "classic", "ver": [2, 0], "nkeys": 3, "used": 1, "wild": False}
+    good = run_scenario({"id": 999999, "case": case, "fam": fam, "attempts": core_attempts(True), "tools": True, "via": "yaml-family", "explicit_version": False,
+                         "dar_via": "create", "dc_for_dar": "created", "refhost": True})
+    if good.get("harness_error"):
+        raise Machinery("canary: " + good["harness_error"])
+    if good["ev"][-2]["e"] != "Tamper":
+        raise Machinery(f"canary: the reference host's trace is incomplete: {json.dumps(good['ev'][-3:])[:400]}")
     g = json.loads(json.dumps({"id": "good", "ev": good["ev"]}))
+    more = []
+    for k, (cls, ver, nk, used, wild, fclass) in enumerate([("classic", [1, 0], 2, 1, True, "cb1"), ("ele1", [2, 1], 4, 3, False, "ele1"), ("classic", [2, 1], 1, 0, True, "cb21-sha256")]):
+        f2 = next(f for f in fams if f["fclass"] == fclass and f["latest"])
+        t2 = run_scenario({"id": 999990 + k, "case": {"kind": "case", "cls": cls, "ver": ver, "nkeys": nk, "used": used, "wild": wild}, "fam": f2,
+                           "attempts": core_attempts(ver[0] == 2), "tools": True, "via": "yaml-family", "explicit_version": False, "dar_via": "create",
+                           "dc_for_dar": "created", "refhost": True})
+        if t2.get("harness_error") or t2["ev"][-2]["e"] != "Tamper":
+            raise Machinery(f"canary: reference host failed for {cls} {ver}: {t2.get('harness_error') or json.dumps(t2['ev'][-3:])[:400]}")
+        more.append({"id": f"good-{cls}-{ver[0]}.{ver[1]}", "ev": t2["ev"]})
     bad = []
 
     def mutate(name, fn):
@@ -768,11 +881,11 @@ def canary(good):
         next(e for e in evs if e["e"] == "Tamper").update(verdict="Accept")
 
     mutate("bad-tamper", accept_tamper)
-    rej, _ = tlc.tv("C15", "DatTrace", [g] + bad)
+    rej, _ = tlc.tv("C15", "DatTrace", [g] + more + bad)
     want = {b["id"] for b in bad}
     if set(rej) != want:
         raise Machinery(f"canary failed: rejected {sorted(rej)}, expected exactly {sorted(want)}")
-    return f"1 good trace accepted, {len(bad)} single-field corruptions rejected ({', '.join(sorted(want))})"
+    return f"{1 + len(more)} traces of the reference host accepted, {len(bad)} single-field corruptions rejected ({', '.join(sorted(want))})"
 
 
 def run(tier):
@@ -806,8 +919,10 @@ def run(tier):
     def mc_job(conn):
         tlc._counter[0] += 1000  # own metadir names
         try:
-            res = tlc.mc("C15", "DatMC", "DatMC.cfg" if tier == "quick" else "DatMC_thorough.cfg", timeout=1500, heap="8g", workers=4 if tier == "quick" else 8,
-                         require_actions=("Challenge", "MCHostRespond", "DeliverSeen", "DeliverSpliced", "DeliverForged"))
+            acts = ("Challenge", "MCHostRespond", "DeliverSeen", "DeliverSpliced", "DeliverForged")
+            res = [tlc.mc("C15", "DatMC", "DatMC.cfg", timeout=900, heap="8g", workers=4, require_actions=acts)]  # with coverage: every action fires
+            if tier == "thorough":  # the deeper run (three host answers, two beacons) without the coverage overhead
+                res.append(tlc.mc("C15", "DatMC", "DatMC_thorough.cfg", timeout=2400, heap="12g", workers=12, coverage=False))
             conn.send(("ok", res))
         except Exception as e:  # noqa: BLE001
             conn.send(("err", str(e)))
@@ -831,8 +946,9 @@ def run(tier):
     mc_proc.join()
     if kind == "err":
         raise Machinery(f"model checking of Dat failed: {res}")
-    v.add_mc(res)
-    say(f"[C15] MC done {v.timer.s()}s: {res.distinct} states, {res.generated} transitions")
+    for x in res:
+        v.add_mc(x)
+    say(f"[C15] MC done {v.timer.s()}s: {sum(x.distinct for x in res)} states, {sum(x.generated for x in res)} transitions")
     # non-vacuity of the protocol model: both outcomes of a delivery are reachable
     for inv in ("NeverAccepts", "NeverRejects"):
         nv = tlc.run("C15", "DatMC", f"DatMC_{inv}.cfg", timeout=300)
@@ -864,15 +980,22 @@ def run(tier):
     empty = [c for c, k in cells.items() if k == 0]
     if empty:
         raise Machinery(f"no credential at all could be created for {empty}: {refused}")
+    answered = {(t["sc"]["case"]["cls"], tuple(t["sc"]["case"]["ver"])) for t in traces if any(e["e"] == "CheckResponseSignature" for e in t["ev"])}
+    if set(cells) - answered:
+        raise Machinery(f"no response at all could be built for {sorted(set(cells) - answered)}: {refused}")
     v.extra.update(refused={f"{c[0]}/{c[1][0]}.{c[1][1]}": x[:5] for c, x in refused.items()}, attempts_executed=n_att, tamper_executed=n_tamper,
                    families=len({t["sc"]["fam"]["family"] for t in traces}), family_revisions=len({(t["sc"]["fam"]["family"], t["sc"]["fam"]["revision"]) for t in traces}))
 
     # ---- canary, then TLC decides every trace
-    good = next(t for t in traces if t["ev"][-2]["e"] == "Tamper" and t["sc"]["case"]["ver"] == [2, 0])
-    v.extra["canary"] = canary(good)
+    v.extra["canary"] = canary(fams)
     say(f"[C15] canary done {v.timer.s()}s")
+    good = next((t for t in traces if t["ev"][-2]["e"] == "Tamper" and t["sc"]["case"]["ver"] == [2, 0]), traces[0])
     v.sample({"scenario": good["sc"]["case"], "family": good["sc"]["fam"]["family"], "events": [e for e in good["ev"] if e["e"] not in ("Attempt", "Tamper")][:14]})
     v.sample({"attempts": [e for e in good["ev"] if e["e"] == "Attempt"][:6], "tamper": [e for e in good["ev"] if e["e"] == "Tamper"][:4]})
+    e2 = next((t for t in traces if t["sc"]["case"]["cls"] == "ele2" and t["ev"][-2]["e"] == "Tamper"), None)
+    if e2:
+        v.sample({"scenario": e2["sc"]["case"], "family": e2["sc"]["fam"]["family"],
+                  "events": [{k: x for k, x in e.items() if k != "fields"} for e in e2["ev"] if e["e"] not in ("Tamper",)][:16], "tamper": [e for e in e2["ev"] if e["e"] == "Tamper"][:3]})
     rsa = next((t for t in traces if t["sc"]["case"]["ver"][0] == 1 and t["sc"]["case"]["wild"] and t["ev"][-2]["e"] == "Tamper"), None)
     if rsa:
         v.sample({"rsa_wildcard_other_device": [e for e in rsa["ev"] if e["e"] == "Attempt" and e["a"]["d"] == "d2" and e["verdict"] == "Accept"][:2]})
@@ -900,9 +1023,13 @@ def run(tier):
     v.cov["trusted_base"] = ["TLC", "cryptography: RSA PKCS#1 v1.5 / PSS verify, ECDSA verify, PEM key loading - called directly", "hashlib (SHA-256/384/512)",
                              "harness/c15_dev.py walkers; layouts anchored on 5 golden credentials + 3 challenges of tests/dat/data (container v2: documentation tables only)"]
     v.assumptions += [
-        "EdgeLock-enclave credentials of container version 2 (AHAB certificate, mimx943 / mimx9596 b0) are not walked by the twin in this build step",
+        "EdgeLock enclave, container version 2 (AHAB certificate + signed message; mimx943, mimx9596 b0): no golden artefact exists, the layout follows the format "
+        "tables in the documentation strings of spsdk/image/ahab; ECC key types only (with RSA keys SPSDK's own verifier refuses the response); honest exchange, "
+        "RoT hash, both signatures and bit flips are asserted, the substitution attempts are not enumerated for this class (the debug-key signature does not cover "
+        "the certificate by container format, and the meaning of the 64-bit message UUID is not documented offline)",
         "the root-of-trust-hash clause is asserted where the image side defines a value: RSA on cert-block-v1 families, P-256/P-384 on cert-block-v2.1 "
-        "families, SRK table on enclave families; for P-521 (2.2) no certificate block exists, the clause and the size of RoT table entries are not asserted",
+        "families, SRK table on enclave families; for P-521 (2.2) no certificate block exists: the clause is not asserted and RoT table entries are taken to be "
+        "SHA-512 digests (64 bytes), the only hash SPSDK's own table names for that key size (no anchor)",
         "DAC root-of-trust hash length per family class is taken from the database flags (based_on_ele, dat_is_using_sha256_always)",
         "debug key and RoT keys are of the same type; RSA public exponent 65537; beacons are 16-bit values as documented",
         "a configuration SPSDK refuses creates nothing and is outside the property (counted in coverage.refused)",
